@@ -60,6 +60,11 @@ def run_C09(rep, g):
     if 'Arbitrary' not in g.d['derives']:
         return
     fam = g.d['family']
+    if g.d.get('custom') and fam != 'any':
+        # the validity of a value is decided by a function of the user's crate: no generator can promise valid values
+        imp = rules_arb.arb_impl(g)
+        rep.ob('R-ARB-ANY', imp is None, g, 'Arbitrary is not derived next to custom validation (the generator cannot know the valid set)', {})
+        return
     if fam == 'int':
         rules_arb.check_arbitrary_int(rep, g, equality=False)
     elif fam == 'string':
